@@ -16,13 +16,13 @@ type Program struct {
 
 	defIdx map[string]int // position in Order of every accepted definition
 	// nodes that need linking once the whole file has been read
-	globals  []*global
-	types    []Type
-	lits     []*structLit
-	sops     []*structOp
-	declOf   map[interface{}]int // node -> index of the definition it occurs in
-	curDecl  int
-	linkDone bool
+	globals   []*global
+	types     []Type
+	lits      []*structLit
+	sops      []*structOp
+	declOf    map[interface{}]int // node -> index of the definition it occurs in
+	structTys map[*StructDecl]Type
+	curDecl   int
 }
 
 type parseErr struct{ msg string }
@@ -119,7 +119,8 @@ func Parse(text string) (*Program, error) {
 		return nil, err
 	}
 	prog := &Program{Funcs: map[string]*Func{}, Consts: map[string]Expr{}, Structs: map[string]*StructDecl{},
-		Types: map[string]Type{}, Refused: map[string]string{}, defIdx: map[string]int{}, declOf: map[interface{}]int{}}
+		Types: map[string]Type{}, Refused: map[string]string{}, defIdx: map[string]int{}, declOf: map[interface{}]int{},
+		structTys: map[*StructDecl]Type{}}
 	pos := 0
 	// end of the sentence starting at i: index of its terminating '.'
 	sentenceEnd := func(i int) int {
@@ -345,8 +346,9 @@ func (p *parser) tyAtom() Type {
 		return r
 	}
 	name := p.ident()
-	if reserved[name] || tyHeads[name] {
-		p.fail("expected a type")
+	if reserved[name] || tyHeads[name] || name == "arrayT" {
+		p.pos--
+		p.fail("expected a type (arrays are outside the grammar)")
 	}
 	return p.namedType(name)
 }
@@ -594,6 +596,17 @@ func (p *parser) atom() Expr {
 			return &not{x}
 		}
 		e := p.block()
+		if first, ok := e.(*tyLit); ok && p.isP("->") { // (a -> b)%ht as an argument
+			r := p.newType(&TypeDesc{kind: tyBase, Name: "arrowT", Elem: []Type{first.t}})
+			for p.eatP("->") {
+				r.Elem = append(r.Elem, p.ty())
+			}
+			p.wantP(")")
+			if p.eatP("%") {
+				p.wantI("ht")
+			}
+			return &tyLit{r}
+		}
 		for p.eatP(",") {
 			e = &pair{e, p.expr()}
 		}
